@@ -246,4 +246,88 @@ def generateLeaves (preds : Node → List Node) (fuel : Nat) (targets : List Nod
 def generateLeavesTraceOnly (preds : Node → List Node) (fuel : Nat) (targets : List Node) (c : Cache) : Cache :=
   (calculated preds fuel targets c).foldl (fun c n => clearAt n c) (traceTargets preds fuel targets c)
 
+/-! ## The same cache WITH values
+
+`data` = the cells' `data` dictionaries (element ↦ value); the value domain `V` is arbitrary – in
+particular it may have a distinguished `None` (`V = Option Nat`: an element of a cells with
+`allow_none=True` holds `none`).  The program is abstracted to `preds` as before plus
+`f n vs`: the value the formula of `n` returns when the elements it calls returned `vs` (`none`
+only when the call-depth bound was hit before the callee had a value).  Nothing below looks at a
+value: a held `None` is a held value. -/
+structure VCache (V : Type) where
+  data : List (Node × V) := []
+  inputs : List Node := []
+  edges : List (Node × Node) := []
+  log : List Node := []
+deriving DecidableEq, Repr
+
+variable {V : Type}
+
+/-- forgetting the values: which elements are held, which are inputs, the trace graph, the log -/
+def VCache.erase (c : VCache V) : Cache :=
+  { held := c.data.map (·.1), inputs := c.inputs, edges := c.edges, log := c.log }
+
+/-- `data.get(n)` with "no entry" kept apart from every value -/
+def VCache.value (c : VCache V) (n : Node) : Option V :=
+  (c.data.find? (fun e => e.1 == n)).map (·.2)
+
+def clearAtV (n : Node) (c : VCache V) : VCache V :=
+  if n ∈ c.data.map (·.1) then
+    let r := withDescs c.edges n
+    { c with data := c.data.filter (fun e => !decide (e.1 ∈ r)),
+             inputs := c.inputs.filter (fun x => !decide (x ∈ r)),
+             edges := c.edges.filter (fun e => !decide (e.1 ∈ r) && !decide (e.2 ∈ r)) }
+  else c
+
+def VCache.enter (c : VCache V) (n : Node) : VCache V := { c with log := c.log ++ [n] }
+def VCache.addEdge (c : VCache V) (p n : Node) : VCache V := { c with edges := c.edges ++ [(p, n)] }
+def VCache.store (c : VCache V) (n : Node) (v : V) : VCache V := { c with data := c.data ++ [(n, v)] }
+
+/-- `Executor.eval_node` with values: the formula of `n` runs, its callees are evaluated, the value
+`f n (values of the callees)` is stored – whatever it is -/
+def evalNodeV (f : Node → List (Option V) → V) (preds : Node → List Node) : Nat → Node → VCache V → VCache V
+  | 0, _, c => c
+  | fuel + 1, n, c =>
+    if n ∈ c.data.map (·.1) then c
+    else
+      let c' := (preds n).foldl (fun c p => (evalNodeV f preds fuel p c).addEdge p n) (c.enter n)
+      c'.store n (f n ((preds n).map c'.value))
+
+/-- `set_value_from_key(key, value)` outside a formula -/
+def setValueV (n : Node) (v : V) (c : VCache V) : VCache V :=
+  let c1 := clearAtV n c
+  { c1 with data := c1.data ++ [(n, v)], inputs := c1.inputs ++ [n] }
+
+/-- one action of `Model.execute_actions`.  `'paste'`: the first loop asks for the value of every
+node (`get_value_from_key`: evaluates it if it has none), the second assigns to each node the
+value that was read – without looking at it.  (`default` stands for the value of a node that has
+none after the first loop, which only happens when the call-depth bound is 0.) -/
+def execActionV [Inhabited V] (f : Node → List (Option V) → V) (preds : Node → List Node) (fuel : Nat)
+    (c : VCache V) : Action → VCache V
+  | .doCalc ns => ns.foldl (fun c n => evalNodeV f preds fuel n c) c
+  | .doPaste ns =>
+    let c1 := ns.foldl (fun c n => evalNodeV f preds fuel n c) c
+    ns.foldl (fun c n => setValueV n ((c1.value n).getD default) c) c1
+  | .doClear ns => ns.foldl (fun c n => clearAtV n c) c
+
+def executeV [Inhabited V] (f : Node → List (Option V) → V) (preds : Node → List Node) (fuel : Nat)
+    (actions : List Action) (c : VCache V) : VCache V :=
+  actions.foldl (execActionV f preds fuel) c
+
+/-- a `'paste'` step that DOES look at the values (a model of the seeded change C16-mutG, not of
+modelx): the values are read from the cache without evaluating, and an element whose value `isNone`
+is skipped -/
+def execActionSkipNone (isNone : V → Bool) (f : Node → List (Option V) → V) (preds : Node → List Node)
+    (fuel : Nat) (c : VCache V) : Action → VCache V
+  | .doCalc ns => ns.foldl (fun c n => evalNodeV f preds fuel n c) c
+  | .doPaste ns =>
+    ns.foldl (fun c' n => match c.value n with
+      | some v => if isNone v then c' else setValueV n v c'
+      | none => c') c
+  | .doClear ns => ns.foldl (fun c n => clearAtV n c) c
+
+def executeSkipNone (isNone : V → Bool) (f : Node → List (Option V) → V) (preds : Node → List Node)
+    (fuel : Nat) (actions : List Action) (c : VCache V) : VCache V :=
+  actions.foldl (execActionSkipNone isNone f preds fuel) c
+
 end MxModel.CalcSteps
